@@ -224,3 +224,85 @@ SCENARIOS = [
               ("onnxscript/nn/_parameter.py", "Parameter._realize"), (REL, GB + "push_module"), (REL, GB + "pop_module")],
              assumptions=["module tree shape fixed: root -> child -> one parameter (names symbolic, default or explicit)"]),
 ]
+
+
+def s_module_list_naming(ctx):
+    """ModuleList: the parameter of a leaf reached through a (possibly nested) ModuleList is registered under
+    root.name + '.' + its state_dict key, whichever way the list was populated (constructor, append after the list
+    was attached, nested list appended to an attached list)."""
+    from onnxscript.nn import _module, _parameter, _module_list
+    I = Interp(ctx)
+    r = z3.String("root_name")
+    a = z3.String("list_attr")
+    p = z3.String("param_attr")
+    for t in (r, a, p):
+        ctx.assume(z3.And(z3.Length(t) > 0, z3.Not(z3.Contains(t, z3.StringVal(".")))))
+    graph = SObj(object, "graph")
+    graph.fields["initializers"] = {}
+    gb = new_builder(I, (), graph)
+    op = SObj(object, "op")
+    op.fields["builder"] = gb
+
+    def mk(cls, *args):
+        m = SObj(cls, cls.__name__.lower())
+        I.call(I.getattr(m, "__init__"), list(args))
+        return m
+    root = mk(_module.Module, SStr(r))
+    leaf = mk(_module.Module, None)
+    param = SObj(_parameter.Parameter, "param")
+    param.fields.update(name=None, const_value=Opaque("data"), _realized=False)
+    I.call(I.getattr(leaf, "__setattr__"), [SStr(p), param])
+    how = ["constructor_then_attach", "attach_then_append", "attach_then_append_nested_list", "nested_constructor_then_attach"][ctx.choose(4, "how the list is populated")]
+    ctx.cover("module_list." + how)
+    ML = _module_list.ModuleList
+    if how == "constructor_then_attach":
+        ml = mk(ML, [leaf])
+        I.call(I.getattr(root, "__setattr__"), [SStr(a), ml])
+        key = z3.Concat(a, z3.StringVal(".0."), p)
+    elif how == "attach_then_append":
+        ml = mk(ML)
+        I.call(I.getattr(root, "__setattr__"), [SStr(a), ml])
+        I.call(I.getattr(ml, "append"), [leaf])
+        key = z3.Concat(a, z3.StringVal(".0."), p)
+    elif how == "attach_then_append_nested_list":
+        ml = mk(ML)
+        I.call(I.getattr(root, "__setattr__"), [SStr(a), ml])
+        inner = mk(ML, [leaf])
+        I.call(I.getattr(ml, "append"), [inner])
+        key = z3.Concat(a, z3.StringVal(".0.0."), p)
+    else:
+        inner = mk(ML, [leaf])
+        ml = mk(ML, [inner])
+        I.call(I.getattr(root, "__setattr__"), [SStr(a), ml])
+        key = z3.Concat(a, z3.StringVal(".0.0."), p)
+
+    def f_root(op_):
+        raise AssertionError
+
+    def f_leaf(op_):
+        raise AssertionError
+    I.models[f_root] = lambda interp, op_: interp.call(interp.getattr(leaf, "__call__"), [op_])
+    I.models[f_leaf] = lambda interp, op_: None
+    root.fields["forward"] = f_root
+    leaf.fields["forward"] = f_leaf
+    I.call(I.getattr(root, "__call__"), [op])
+    inits = graph.fields["initializers"]
+    ok = len(inits) == 1 and list(inits.values())[0] is param
+    ctx.check("C18.nn.module_list.parameter_realized_exactly_once", ok, CL_NAME)
+    if not ok:
+        return
+    init_name = term(list(inits.keys())[0])
+    sd = I.call(I.getattr(root, "state_dict"), [])
+    ok = isinstance(sd, dict) and len(sd) == 1
+    ctx.check("C18.nn.module_list.state_dict_has_one_key", ok, CL_NAME)
+    if not ok:
+        return
+    k = term(list(sd.keys())[0])
+    ctx.check("C18.nn.module_list.state_dict_key_is_the_indexed_attribute_path", k == key, CL_NAME)
+    ctx.check("C18.nn.module_list.initializer_name_is_root_name_dot_state_dict_key", init_name == z3.Concat(r, z3.StringVal("."), k), CL_NAME)
+
+
+SCENARIOS.append(Scenario("C18.nn.module_list_naming", s_module_list_naming,
+                          [("onnxscript/nn/_module_list.py", "ModuleList.__init__"), ("onnxscript/nn/_module_list.py", "ModuleList._register_child"),
+                           ("onnxscript/nn/_module_list.py", "ModuleList._set_name"), ("onnxscript/nn/_module_list.py", "ModuleList.append")],
+                          assumptions=["tree shapes: root -> ModuleList -> leaf and root -> ModuleList -> ModuleList -> leaf, four population orders; names symbolic"]))
